@@ -1,10 +1,10 @@
 package main
 
 import (
-	"math"
 	"encoding/json"
 	"errors"
 	"fmt"
+	"math"
 	"reflect"
 	"strings"
 
@@ -35,6 +35,12 @@ func init() {
 				{T: "ctx", Opts: []POpt{{T: "depth", N: -1}}}, {T: "define", Kind: "k2"}, {T: "with", D: 2, Ctx: ip(0)},
 				{T: "recover", F: 0, Cb: &PCb{T: "panicVal", Val: 0}}, {T: "recover", F: 1, Cb: &PCb{T: "panicRt", Rt: "nilmap"}},
 				{T: "recover", F: 3, Cb: &PCb{T: "panicErr", E: ip(0)}}, {T: "recover", F: 2, Cb: &PCb{T: "ret"}}}))
+			// corpus: the panic value is a typed nil error (nil-safe methods), alone and wrapped
+			out = append(out, runC17([]PStmt{
+				{T: "define", Kind: "k1", Opts: nt}, {T: "ctx", Opts: nt}, {T: "with", D: 0, Ctx: ip(0)},
+				{T: "leaf", Ty: "typednil"}, {T: "recover", F: 0, Cb: &PCb{T: "panicErr", E: ip(0)}},
+				{T: "fmterrorf", Msg: "w", C: ip(0)}, {T: "recover", F: 1, Cb: &PCb{T: "call", C: &PCb{T: "panicErr", E: ip(2)}}},
+				{T: "recover", F: 1, Cb: &PCb{T: "ret", E: ip(0)}}}))
 			for i := 0; i < n; i++ {
 				cfg := p1Cfg{MaxStmts: 5 + i*8/n, Keys: p1Keys, Recover: true, Presenters: i%2 == 0, Trace: i%4 == 1}
 				p := genProg(r, cfg)
